@@ -364,6 +364,7 @@ pub fn finish(ctx: &Ctx, mut rep: Report, replay: &dyn Fn(&Value) -> Vec<Violati
     }
     // every violation is re-executed from its artefact before being reported
     let mut confirmed: Vec<(Violation, String)> = vec![];
+    let mut unreproduced: Vec<Value> = vec![];
     let mut seen_rules: HashSet<String> = HashSet::new();
     for v in real {
         if !seen_rules.insert(v.rule.clone()) && confirmed.len() >= 5 {
@@ -375,6 +376,12 @@ pub fn finish(ctx: &Ctx, mut rep: Report, replay: &dyn Fn(&Value) -> Vec<Violati
             Err(_) => false,
         };
         if !reproduced {
+            if v.case.get("timing_dependent").and_then(|t| t.as_bool()) == Some(true) {
+                // observations of families that run several free threads (two indexing workers, a compressor
+                // thread) under injected faults: one that does not show again is recorded, not judged
+                unreproduced.push(json!({"rule": v.rule, "what": v.what.chars().take(400).collect::<String>()}));
+                continue;
+            }
             rep.machinery_errors.push(format!(
                 "violation did not reproduce on replay (nondeterminism?): rule={} {}",
                 v.rule, v.what
@@ -395,6 +402,10 @@ pub fn finish(ctx: &Ctx, mut rep: Report, replay: &dyn Fn(&Value) -> Vec<Violati
         confirmed.push((v, path));
     }
     let nviol = confirmed.len();
+    if !unreproduced.is_empty() {
+        println!("UNREPRODUCED: {} timing-dependent observation(s) did not show again on replay (recorded in the evidence, not judged)", unreproduced.len());
+        rep.set("unreproduced_timing_dependent_observations", Value::Array(unreproduced));
+    }
     rep.set("known_findings_seen", known_printed.len() as u64);
     if !rep.coverage.contains_key("exhaustive") {
         rep.set("exhaustive", false);
